@@ -1,4 +1,5 @@
 /// The type of publish request being made
+#[cfg_attr(feature = "verif", derive(Clone))]
 pub enum PublishRequestType {
     /// The published stream should be sent out without recording it in a file
     Live,
